@@ -137,6 +137,9 @@ class VerifyEnv:
     def mod_attr_hook(self, ex, st, full):
         if full in ("os.environ",):
             return st.ghost.get("os.environ")
+        ov = getattr(self, "mod_attr_overrides", None)
+        if ov and full in ov:
+            return ov[full]
         return None
 
     def symref_get(self, ex, st, ref, attr):
